@@ -80,6 +80,27 @@ pub fn replay(cases: &str, verdicts: &str) {
                     let rule = num(&c["rule"]);
                     v.check(g.map(|g| close(g, rule)).unwrap_or(false), "romberg", &class, &c, json!({"got": g, "rule": rule, "level": c["level"]}));
                 }
+                // the rule has no memory (QSpec: the value is a function of integrand, limits, tolerance and budget): in a thread of its
+                // own, after calls with smaller and then growing level budgets (and, separately, after a larger one), the call returns
+                // bit for bit what it returns first thing in a fresh thread - and what the specification demands
+                {
+                    let after = |warm: &[usize]| -> Option<f64> {
+                        std::thread::scope(|s| s.spawn(|| {
+                            for w in warm { let _ = guard(|| romberg(&f, a, b, 0.0, *w)); }
+                            guard(|| romberg(&f, a, b, eps, nmax))
+                        }).join().ok().flatten())
+                    };
+                    let fresh = after(&[]);
+                    let grown = after(&[2, 3, nmax.saturating_sub(1).max(2)]);
+                    let shrunk = after(&[nmax + 3]);
+                    let same = |x: Option<f64>, y: Option<f64>| match (x, y) { (Some(x), Some(y)) => x.to_bits() == y.to_bits() || (x.is_nan() && y.is_nan()), (None, None) => true, _ => false };
+                    let mut ok = same(fresh, grown) && same(fresh, shrunk);
+                    if c["judged"].as_bool().unwrap() {
+                        let rule = num(&c["rule"]);
+                        ok &= [fresh, grown, shrunk].iter().all(|g| g.map(|g| close(g, rule)).unwrap_or(false));
+                    }
+                    v.check(ok, "romberg after calls with other level budgets", &class, &c, json!({"fresh_thread": fresh, "after_growing_budgets": grown, "after_larger_budget": shrunk}));
+                }
                 if eps == 0.0 {
                     let g2 = guard(|| romberg(&f, b, a, eps, nmax));
                     v.check(match (g, g2) { (Some(x), Some(y)) => close(y, -x), _ => false }, "romberg sign", &class, &c, json!({"fwd": g, "rev": g2}));
